@@ -10,7 +10,7 @@ by contract), threads `1..n` are the workers (`ThreadId::make(i + 1)` in the con
 Queues: queue `0` is `parallel_jobs`, queue `k + 1` is `extra.array[k]` (a serial queue).
 Tasks are numbered in submission order (`nextId`), which is also the FIFO order inside a queue.
 
-Ghost fields (`tq`, `runner`, `owner`, `cur`, `started`, `done`, `dropped`, `waitSnap`) record history only; no guard reads them.
+Ghost fields (`tq`, `runner`, `owner`, `cur`, `started`, `done`, `dropped`, `waitSnap`, `synced`) record history only; no guard reads them.
 
 The model follows the behaviour the property demands and the repaired code has: the helping
 waiter does not pop a serial queue that is busy (`waitBlocked`), `threads_waiting`/`terminate`
@@ -69,11 +69,12 @@ structure State where
   done : List Nat             -- tasks in the order they finished
   dropped : List Nat          -- tasks removed by `clear()` in the destructor
   waitSnap : Nat              -- `nextId` when the current / last `wait` was called
+  synced : List Nat           -- finished tasks whose effects the last parallel barrier handed to the external thread
 
 def init (n : Nat) : State :=
   { n := n, pcs := List.replicate (n + 1) Pc.idle, mode := .api, jobs := fun _ => [], locked := fun _ => false,
     prio := fun _ => 0, nq := 0, tw := 0, terminate := false, single := false, nextId := 0,
-    tq := fun _ => 0, runner := fun _ => 0, owner := fun _ => 0, cur := fun _ => 0, started := [], done := [], dropped := [], waitSnap := 0 }
+    tq := fun _ => 0, runner := fun _ => 0, owner := fun _ => 0, cur := fun _ => 0, started := [], done := [], dropped := [], waitSnap := 0, synced := [] }
 
 inductive Action
   -- external thread
@@ -195,7 +196,9 @@ def step (s : State) : Action → Option State
   | .spinExit =>
     match s.mode with
     | .spin q =>
-      if (q = 0 → s.tw = s.n) ∧ (q ≠ 0 → s.locked q = false) then some { s with mode := .api } else none
+      if (q = 0 → s.tw = s.n) ∧ (q ≠ 0 → s.locked q = false) then
+        some { s with mode := .api, synced := if q = 0 then s.done else s.synced }
+      else none
     | _ => none
   | .sdFlag =>
     if s.mode = .api then some { s with mode := .sdFlag, terminate := true } else none
